@@ -197,6 +197,8 @@ func init() {
 		"internal/godebug.setUpdate":           extNop,
 		"internal/godebug.setNewIncNonDefault": extNop,
 		"runtime.SetFinalizer":                 extNop,
+		"(*internal/godebug.Setting).Value":         func(fr *frame, args []value) value { return "" }, // no GODEBUG settings
+		"(*internal/godebug.Setting).IncNonDefault": extNop,
 		"internal/abi.NoEscape":                func(fr *frame, args []value) value { return args[0] },
 		"internal/abi.Escape":                  func(fr *frame, args []value) value { return args[0] },
 		"runtime.KeepAlive":                    extNop,
